@@ -18,18 +18,14 @@ Definition env_ok (s : state) (e : event) : bool :=
   | _ => true
   end.
 
-(* ids one event can allocate (idgen.next calls) *)
-Definition payload_caps (p : option payload) : Z :=
-  match p with
-  | Some p => match p_caps p with Some ds => Z.of_nat (length ds) | None => 0 end
-  | None => 0
-  end.
+(* ids one event can allocate (idgen.next calls): a question and one export per parameter
+   capability for a local call (plus one embargo id the pipelined path may cost when the answer
+   arrives), one export per result capability, the bootstrap export *)
 Definition ev_work (e : event) : Z :=
   match e with
   | MBootstrap _ => 1
-  | MReturn _ _ (RkResults p) => payload_caps p
   | ABootstrap | AHold _ => 1
-  | ACall _ caps _ | APipe _ _ caps _ => 1 + Z.of_nat (length caps)
+  | ACall _ caps _ | APipe _ _ caps _ => 2 + Z.of_nat (length caps)
   | AReturn _ (ARResults fs) => Z.of_nat (length fs)
   | _ => 0
   end.
